@@ -86,9 +86,24 @@ type storeCfg struct {
 	limit      int64
 	cthr       int
 	dir        string
+	// partitioned (IVF) vector template: every open constructs a fresh template and trains it on a
+	// fresh training set (its own sample, so its cells differ from the ones a segment was written with)
+	r         *rand.Rand
+	ntrain    int
+	lastTrain [][]float32
+	trainCode int
 }
 
-func (c storeCfg) open() (*comet.PersistentHybridIndex, error) {
+// trainOp emits the training of the template of the session just opened (op 14).
+func (c *storeCfg) trainOp() func(cs *Case) {
+	if !c.hv || c.p.kind == 0 {
+		return nil
+	}
+	vs, code := c.lastTrain, c.trainCode
+	return func(cs *Case) { cs.N(14).Vecs(vs).N(code) }
+}
+
+func (c *storeCfg) open() (*comet.PersistentHybridIndex, error) {
 	cfg := comet.DefaultStorageConfig(c.dir)
 	cfg.MemtableSizeLimit = c.limit
 	cfg.FlushThreshold = 1 << 60
@@ -98,6 +113,23 @@ func (c storeCfg) open() (*comet.PersistentHybridIndex, error) {
 		v, err := c.p.build()
 		if err != nil {
 			panic(err)
+		}
+		if c.p.kind != 0 {
+			vs := make([][]float32, c.ntrain)
+			nodes := make([]comet.VectorNode, c.ntrain)
+			for i := range vs {
+				vs[i] = histVec(c.r, c.p.dim, c.r.Intn(2))
+				if c.p.metric == 1 { // cosine: a zero vector would only make the training fail
+					vs[i][c.r.Intn(c.p.dim)] = float32(1 + c.r.Intn(3))
+				}
+				nodes[i] = *comet.NewVectorNodeWithID(uint32(900+i), cloneVec(vs[i]))
+			}
+			var e error
+			pan := catchPanic(func() { e = v.Train(nodes) })
+			c.lastTrain, c.trainCode = vs, errCodeHybrid(e)
+			if pan {
+				c.trainCode = 12
+			}
 		}
 		cfg.VectorIndexTemplate = v
 	}
@@ -159,7 +191,8 @@ func dirListing(dir string, broken map[string]bool) [][5]int {
 
 type storeHistOpts struct {
 	nops     int
-	sessions int // number of open..close sessions (C09)
+	sessions int  // number of open..close sessions (C09)
+	ivf      bool // trained IVF vector template (fresh and freshly trained at every open)
 }
 
 var storeCaseCounter int
@@ -175,6 +208,10 @@ func runStoreHistory(r *rand.Rand, o storeHistOpts, t *Trace) *Case {
 	defer os.RemoveAll(dir)
 	cfg := storeCfg{dir: dir}
 	cfg.p = vecParams{kind: 0, dim: []int{1, 2, 3, 4}[r.Intn(4)], metric: r.Intn(3), nlist: 1, m: 1, nbits: 1}
+	if o.ivf {
+		cfg.p.kind, cfg.p.nlist = 1, 2+r.Intn(3)
+		cfg.r, cfg.ntrain = r, cfg.p.nlist+r.Intn(2*cfg.p.nlist)
+	}
 	cfg.hv, cfg.ht, cfg.hm = r.Intn(8) != 0, r.Intn(3) != 0, r.Intn(3) != 0
 	if !cfg.hv && !cfg.ht && !cfg.hm {
 		cfg.hv = true
@@ -192,8 +229,26 @@ func runStoreHistory(r *rand.Rand, o storeHistOpts, t *Trace) *Case {
 	in := &interner{m: map[string]int{}}
 	c := cfg.p.header(NewCase(800)).B(cfg.hv).B(cfg.ht).B(cfg.hm).I(cfg.limit).N(cfg.cthr)
 	var ops []func(c *Case)
+	if f := cfg.trainOp(); f != nil {
+		ops = append(ops, f)
+	}
 	live := []uint32{}
-	nextID := uint32(1)
+	liveVec := map[uint32][]float32{}
+	nextID := uint32(1) // counts the adds; the document id is idOf(nextID)
+	// document ids are the caller's: sequential from 1, sequential from 0 (the zero value of the id
+	// type is an id like any other), near the top of the range, or descending from the maximum
+	idMode := r.Intn(4)
+	idOf := func(n uint32) uint32 {
+		switch idMode {
+		case 1:
+			return n - 1
+		case 2:
+			return 4000000000 + n
+		case 3:
+			return ^uint32(0) - (n - 1)
+		}
+		return n
+	}
 	style := r.Intn(2)
 	observe := func() {
 		ids, cached := st.VerifSegmentIDs()
@@ -234,7 +289,7 @@ func runStoreHistory(r *rand.Rand, o storeHistOpts, t *Trace) *Case {
 				keys = append(keys, k)
 			}
 			sort.Strings(keys)
-			id := nextID
+			id := idOf(nextID)
 			nextID++
 			e := st.AddWithID(id, vec, text, md)
 			code := errCodeStore(e)
@@ -255,6 +310,9 @@ func runStoreHistory(r *rand.Rand, o storeHistOpts, t *Trace) *Case {
 			})
 			if code == 0 {
 				live = append(live, id)
+				if vec != nil {
+					liveVec[id] = raw
+				}
 				t.Stat("store.add_ok")
 			} else {
 				t.Stat("store.add_error")
@@ -370,6 +428,9 @@ func runStoreHistory(r *rand.Rand, o storeHistOpts, t *Trace) *Case {
 			}
 			st = st2
 			session++
+			if f := cfg.trainOp(); f != nil {
+				ops = append(ops, f)
+			}
 			t.Stat("store.reopen")
 			observe()
 		default: // search
@@ -379,6 +440,13 @@ func runStoreHistory(r *rand.Rand, o storeHistOpts, t *Trace) *Case {
 			mode := r.Intn(10)
 			if cfg.hv && mode < 7 {
 				vq = histVec(r, cfg.p.dim, style)
+				if len(live) > 0 && r.Intn(3) == 0 {
+					// the stored vector of a live document as the query
+					if v, ok := liveVec[live[r.Intn(len(live))]]; ok {
+						vq = cloneVec(v)
+						t.Stat("store.search_self_query")
+					}
+				}
 			}
 			if cfg.ht && (mode >= 5 || !cfg.hv) && r.Intn(2) == 0 {
 				tqs = []string{bmText(r)}
@@ -403,6 +471,11 @@ func runStoreHistory(r *rand.Rand, o storeHistOpts, t *Trace) *Case {
 			cfgF := &comet.FusionConfig{VectorWeight: 1, TextWeight: 1, K: 60}
 			fu, _ := comet.NewFusion(fkinds[fk], cfgF)
 			s := st.NewSearch().WithK(k).WithFusion(fu)
+			nprobes := 1
+			if cfg.p.kind != 0 && r.Intn(3) == 0 {
+				nprobes = 1 + r.Intn(cfg.p.nlist+1)
+				s = s.WithNProbes(nprobes)
+			}
 			if vq != nil {
 				s = s.WithVector(cloneVec(vq))
 			}
@@ -448,7 +521,7 @@ func runStoreHistory(r *rand.Rand, o storeHistOpts, t *Trace) *Case {
 					encFilter(c, f)
 				}
 				c.N(0) // groups
-				c.N(k).F32(0).N(0).N(-1).N(1).N(fk).F64(1).F64(1).F64(60)
+				c.N(k).F32(0).N(0).N(-1).N(nprobes).N(fk).F64(1).F64(1).F64(60)
 				encLn(c, lnT)
 				c.N(code).N(len(res))
 				for _, x := range res {
@@ -497,7 +570,12 @@ func genC08(r *rand.Rand, t *Trace, thorough bool) {
 		n = 1500
 	}
 	for it := 0; it < n; it++ {
-		t.Emit(runStoreHistory(r, storeHistOpts{nops: 10 + r.Intn(40), sessions: 1}, t))
+		o := storeHistOpts{nops: 10 + r.Intn(40), sessions: 1, ivf: it%5 == 4}
+		if o.ivf {
+			t.Emit(runStoreHistory(r, o, t), "store.template.ivf")
+		} else {
+			t.Emit(runStoreHistory(r, o, t), "store.template.flat")
+		}
 	}
 }
 
@@ -507,6 +585,12 @@ func genC09(r *rand.Rand, t *Trace, thorough bool) {
 		n = 1200
 	}
 	for it := 0; it < n; it++ {
-		t.Emit(runStoreHistory(r, storeHistOpts{nops: 15 + r.Intn(45), sessions: 1 + r.Intn(4)}, t))
+		// the property's template kinds: flat and trained IVF (HNSW: see DESIGN, not modelled inside the store)
+		o := storeHistOpts{nops: 15 + r.Intn(45), sessions: 1 + r.Intn(4), ivf: it%3 == 2}
+		if o.ivf {
+			t.Emit(runStoreHistory(r, o, t), "store.template.ivf")
+		} else {
+			t.Emit(runStoreHistory(r, o, t), "store.template.flat")
+		}
 	}
 }
